@@ -7,5 +7,5 @@ CONSTANTS
   CountVals = {0, 1, 3}
   Modes = {"exp", "explicit"}
   SimPick = 0
-INVARIANTS BucketsMatch BucketsMatchNoScaleDown TotalPreserved WellFormed
+INVARIANTS BucketsMatch TotalPreserved WellFormed
 CHECK_DEADLOCK FALSE
